@@ -867,3 +867,147 @@ pub fn minimize_vec<T: Clone, F: Fn(&[T]) -> bool>(v: &[T], fails: F) -> Vec<T> 
     }
     cur
 }
+
+// ---------------------------------------------------------------------------------------------
+// Coverage-guided tier (libFuzzer via cargo-fuzz), thorough only
+// ---------------------------------------------------------------------------------------------
+
+pub const FUZZ_DIR: &str = "/verif/fuzz";
+pub const FUZZ_TARGET_DIR: &str = "/verif/.build/fuzz";
+
+impl Ctx {
+    /// Run a libFuzzer campaign of `runs` executions per worker on `workers` workers with the semantic
+    /// oracle inside the target. `decode` re-checks a crash artifact in this process.
+    pub fn fuzz_campaign<D>(&mut self, target: &str, runs: u64, max_len: usize, seeds: Vec<Vec<u8>>, decode: D)
+    where
+        D: Fn(&[u8]) -> Option<(String, Value, String)>,
+    {
+        if self.failed() {
+            return;
+        }
+        let t0 = Instant::now();
+        let bin_name = format!("fz_{target}");
+        // build (recompiles chiritori from /repo's working tree through the path dependency)
+        let build = std::process::Command::new("cargo")
+            .args(["+nightly", "fuzz", "build", "--fuzz-dir", FUZZ_DIR, "--target-dir", FUZZ_TARGET_DIR, &bin_name])
+            .env("CARGO_NET_OFFLINE", "true")
+            .current_dir(VERIF_DIR)
+            .output();
+        let ok = matches!(&build, Ok(o) if o.status.success());
+        if !ok {
+            let msg = match build {
+                Ok(o) => String::from_utf8_lossy(&o.stderr).lines().rev().take(15).collect::<Vec<_>>().join(" | "),
+                Err(e) => e.to_string(),
+            };
+            self.inconclusive = Some(format!("cargo fuzz build failed: {}", truncate(&msg, 1500)));
+            return;
+        }
+        let bin = format!("{FUZZ_TARGET_DIR}/x86_64-unknown-linux-gnu/release/{bin_name}");
+        if !Path::new(&bin).exists() {
+            self.inconclusive = Some(format!("fuzz binary {bin} not found after build"));
+            return;
+        }
+        let workers = (threads() / 2).clamp(1, 8);
+        let base = PathBuf::from(format!("{VERIF_DIR}/.build/fuzz-run/{}-{}-{}", self.property, target, std::process::id()));
+        let _ = std::fs::remove_dir_all(&base);
+        let mut children = vec![];
+        for w in 0..workers {
+            let dir = base.join(format!("w{w}"));
+            let corpus = dir.join("corpus");
+            let _ = std::fs::create_dir_all(&corpus);
+            // half of the workers start from the seed corpus, the others from an empty one
+            if w % 2 == 0 {
+                for (i, s) in seeds.iter().enumerate() {
+                    let _ = std::fs::write(corpus.join(format!("seed{i:04}")), s);
+                }
+            }
+            let seed = (self.seed.wrapping_mul(1000).wrapping_add(w as u64) % 4_000_000_000).max(1);
+            let child = std::process::Command::new(&bin)
+                .arg(&corpus)
+                .args([format!("-runs={runs}"), format!("-seed={seed}"), format!("-max_len={max_len}"), "-len_control=0".to_string(), "-timeout=60".to_string(), "-print_final_stats=1".to_string(), format!("-artifact_prefix={}/", dir.display())])
+                .env("CV_FUZZ_WHICH", &self.property)
+                .env_remove("RUST_BACKTRACE")
+                .stdout(std::process::Stdio::null())
+                .stderr(std::process::Stdio::piped())
+                .spawn();
+            match child {
+                Ok(c) => children.push((w, dir, c)),
+                Err(e) => {
+                    self.inconclusive = Some(format!("cannot start {bin}: {e}"));
+                    return;
+                }
+            }
+        }
+        let mut total_execs = 0u64;
+        let mut max_cov = 0u64;
+        let mut corpus_units = 0u64;
+        let mut crashed: Vec<(PathBuf, String)> = vec![];
+        for (_w, dir, c) in children {
+            let out = match c.wait_with_output() {
+                Ok(o) => o,
+                Err(e) => {
+                    self.inconclusive = Some(format!("waiting for the fuzzer failed: {e}"));
+                    return;
+                }
+            };
+            let log = String::from_utf8_lossy(&out.stderr).to_string();
+            for line in log.lines() {
+                if let Some(v) = line.strip_prefix("stat::number_of_executed_units:") {
+                    total_execs += v.trim().parse::<u64>().unwrap_or(0);
+                }
+                if line.contains(" cov: ") {
+                    if let Some(p) = line.find(" cov: ") {
+                        let v: String = line[p + 6..].chars().take_while(|c| c.is_ascii_digit()).collect();
+                        max_cov = max_cov.max(v.parse().unwrap_or(0));
+                    }
+                    if let Some(p) = line.find(" corp: ") {
+                        let v: String = line[p + 7..].chars().take_while(|c| c.is_ascii_digit()).collect();
+                        corpus_units = corpus_units.max(v.parse().unwrap_or(0));
+                    }
+                }
+            }
+            if !out.status.success() {
+                crashed.push((dir, log));
+            }
+        }
+        self.stats.evaluations += total_execs;
+        self.subs_run.push(json!({"sub": format!("libfuzzer:{bin_name}"), "kind": "coverage-guided", "workers": workers, "runs_per_worker": runs, "executions": total_execs, "max_len": max_len, "seed_inputs": seeds.len(), "edge_coverage": max_cov, "corpus_units": corpus_units, "wall_s": t0.elapsed().as_secs_f64()}));
+        self.extra.insert("fuzz".into(), json!({"target": bin_name, "executions": total_execs, "edge_coverage": max_cov, "corpus_units": corpus_units}));
+        for (dir, log) in crashed {
+            let mut arts: Vec<PathBuf> = std::fs::read_dir(&dir).map(|rd| rd.filter_map(|e| e.ok()).map(|e| e.path()).filter(|p| p.file_name().map(|n| { let n = n.to_string_lossy(); n.starts_with("crash-") || n.starts_with("timeout-") || n.starts_with("oom-") }).unwrap_or(false)).collect()).unwrap_or_default();
+            arts.sort();
+            for a in &arts {
+                if let Ok(data) = std::fs::read(a) {
+                    if let Some((sub, case, msg)) = decode(&data) {
+                        self.failure = Some(Failure { broken: false, sub, case, tape: None, message: format!("{msg} [found by libFuzzer target {bin_name}]") });
+                        let _ = std::fs::remove_dir_all(&base);
+                        return;
+                    }
+                }
+            }
+            let tail: Vec<&str> = log.lines().rev().take(12).collect();
+            self.inconclusive = Some(format!("fuzz worker in {} stopped abnormally but no artifact reproduces an oracle violation (timeout / out of memory / abort?): {}", dir.display(), tail.into_iter().rev().collect::<Vec<_>>().join(" | ")));
+            return;
+        }
+        let _ = std::fs::remove_dir_all(&base);
+    }
+}
+
+/// Seed inputs from the repository's own fixtures and samples (if present).
+pub fn repo_seed_texts() -> Vec<String> {
+    let mut v = vec![];
+    for dir in ["/repo/chiritori/src/integration-test-fixtures", "/repo/samples"] {
+        if let Ok(rd) = std::fs::read_dir(dir) {
+            let mut files: Vec<PathBuf> = rd.filter_map(|e| e.ok()).map(|e| e.path()).collect();
+            files.sort();
+            for f in files {
+                if let Ok(t) = std::fs::read_to_string(&f) {
+                    if t.len() < 6000 {
+                        v.push(t);
+                    }
+                }
+            }
+        }
+    }
+    v
+}
